@@ -68,7 +68,7 @@ func (m *lockModel) due(e int64) []string {
 func TestC09Stateful(t *testing.T) {
 	theT = t
 	col := ev.New("C09", "stateful",
-		"rapid state machine over mint/lock/burn/transferX/transfer/netmap tick/direct newEpoch with until in {cur-1,cur,cur+1,cur+2,cur+5}, zero/partial/full amounts and shared until values; full balance+lock model compared with the raw account scan, supply and unlock notifications after every step; non-trivial = a tick released a lock AND the history also has a partial burn of a lock, a tick that left a pending lock alone, or >=2 locks released by one tick",
+		"rapid state machine (starting at epoch 0, 126, 254, 65534 or 2^24) over mint/lock/burn/transferX/transfer/netmap tick/direct newEpoch with until in {cur-1,cur,cur+1,cur+2,cur+5}, zero/partial/full amounts and shared until values; full balance+lock model compared with the raw account scan, supply and unlock notifications after every step; non-trivial = a tick released a lock AND the history also has a partial burn of a lock, a tick that left a pending lock alone, or >=2 locks released by one tick",
 		"lock targets are fresh addresses", "lock until >= 1 (0 is the contract's not-a-lock marker; the Inner Ring never produces it)",
 		"lock sources are ordinary accounts (not lock accounts)", "epoch ticks reach Balance through Netmap's subscriber fan-out or by the Alphabet calling Balance.newEpoch directly")
 	runRapid(t, col, func(rt *rapid.T, h *ev.History) {
@@ -76,6 +76,15 @@ func TestC09Stateful(t *testing.T) {
 		w := newBalWorld(n, h)
 		defer w.close()
 		alpha := []neotest.Signer{w.c.Alphabet}
+		// the history may start at an epoch whose number needs two or three bytes (until values follow it)
+		if e0 := rapid.SampledFrom([]int64{0, 0, 0, 126, 254, 65534, 1 << 24}).Draw(rt, "startEpoch"); e0 > 0 {
+			if o := w.c.Invoke(alpha, w.netmap, "newEpoch", e0); !o.Halt {
+				fail("C09: tick to epoch %d on a fresh network failed: %s", e0, o)
+			}
+			w.epoch = e0
+			h.Op("the network starts at epoch %d", e0)
+			h.Mark("large-epoch-numbers")
+		}
 		m := &lockModel{bal: map[string]*big.Int{}, locks: map[string]*lockInfo{}, supply: big.NewInt(0), gone: map[string]bool{}}
 		users := [][]byte{w.users[0].ScriptHash().BytesBE(), w.users[1].ScriptHash().BytesBE(), w.users[2].ScriptHash().BytesBE()}
 		var lockAddrs [][]byte
